@@ -21,6 +21,12 @@ def main():
     seeds = [int(s) for s in args[1].split(',')]
     props = args[2:] or ['C%02d' % i for i in range(1, 21)]
     fj = os.path.join(VERIF, 'vlib', 'floors.json')
+    fout = fj
+    if '--out' in args:       # write the updated table elsewhere (two sweeps running side by side must not overwrite each other)
+        i = args.index('--out')
+        fout = args[i + 1]
+        del args[i:i + 2]
+        props = args[2:] or ['C%02d' % k for k in range(1, 21)]
     import json
     table = json.load(open(fj)) if os.path.exists(fj) else {}
     for prop in props:
@@ -75,7 +81,7 @@ def main():
                 new['counters'] = {k: min(v, old.get('counters', {}).get(k, v)) for k, v in new['counters'].items()}
                 new['measured_on_seeds'] = sorted(set(old.get('measured_on_seeds', [])) | set(seeds))
             table.setdefault(prop, {})[tier] = new
-            json.dump(table, open(fj, 'w'), indent=1, sort_keys=True)
+            json.dump(table, open(fout, 'w'), indent=1, sort_keys=True)
 
 
 if __name__ == '__main__':
